@@ -390,10 +390,34 @@ def run_case(case):
                 ratio_ = mm.dw // cm.dw if (not sparse and cm.dw and mm.dw % cm.dw == 0) else 1
                 span = max(1, (1 << cm.aw) // max(1, ratio_))
                 it_ = rng.choice(mm.items)
-                addr = rng.choice([it_["start"] - span + rng.choice([0, 1, 2, 3, ratio_ - 1, ratio_]), it_["end"] - rng.choice([0, 1, 2])])
+                addr = rng.choice([it_["start"] - span + rng.choice([0, 1, 2, 3, ratio_ - 1, ratio_]), it_["end"] - rng.choice([0, 1, 2]),
+                                   # the naturally aligned span that holds the start (or the last address) of an existing item:
+                                   # the item may sit anywhere inside it, also in its last few addresses
+                                   it_["start"] // span * span, (it_["end"] - 1) // span * span])
                 if addr < 0:
                     addr = 0
                 mon.count("abutting_explicit_window_placements")
+            elif aimed and addr is None and not mm.frozen and rng.random() < 0.4:
+                # implicit placement into a parent that is nearly full: first a register in the last few addresses, so that
+                # the cursor is less than one window span short of the top of the map
+                ratio_ = mm.dw // cm.dw if (not sparse and cm.dw and mm.dw % cm.dw == 0) else 1
+                span = max(1, (1 << cm.aw) // max(1, ratio_))
+                top_ = 1 << mm.aw
+                d_ = min(span, rng.choice([1, 1, 2, 3, max(1, ratio_ - 1), rng.randrange(0, span)]))   # what will not fit
+                a_ = max(0, top_ - span + d_ - 1) // (1 << mm.align) * (1 << mm.align)
+                r_, nm_ = new_res(), fresh_name()
+                p_ = mm.predict_add_resource(id(r_), True, nm_, 1, a_, None)
+                b_ = snapshot(t)
+                w_ = f"{mm.label}.add_resource(size=1, addr={a_}) near the top of the map"
+                mon.log(w_)
+                try:
+                    o_, e_ = m.add_resource(r_, name=nm_, size=1, addr=a_), None
+                except Exception as ex_:
+                    o_, e_ = None, ex_
+                mon.count("implicit_window_placements_near_the_top_of_a_map")
+                if judge(t, p_, e_, o_, b_, w_):
+                    mm.commit_resource(id(r_), nm_, o_[0], o_[1])
+                before = snapshot(t)
             why = f"{mm.label}.add_window({cm.label}, name={name!r}, addr={addr!r}, sparse={sparse!r})"
             mon.log(why)
             pred = mm.predict_add_window(id(child), True, cm, name, addr, sparse)
